@@ -201,6 +201,11 @@ class CoreMixin:
                             self.elem(v.args[2], k, n_total, site))
         if v.op == "ZipElem":
             return v.args[k] if k < len(v.args) else self.unknown("zipelem", site)
+        if v.op == "Range" and all(a.op == "Const" and type(a.attr) is int for a in v.args) and 1 <= len(v.args) <= 3:
+            r = range(*[a.attr for a in v.args])        # a, b, c = range(3)
+            if -len(r) <= k < len(r):
+                return self.const(r[k], site)
+            return self.unknown("elem-out-of-range", site)
         if v.op == "Obj" and v.extra and "tuple_fields" in v.extra:
             tf = v.extra["tuple_fields"]
             return tf[k] if -len(tf) <= k < len(tf) else self.unknown("elem-out-of-range", site)
@@ -706,6 +711,11 @@ class CoreMixin:
                         for mname, mfi in c.methods.items():
                             if getattr(mfi.node, "lineno", 0) < getattr(stmt, "lineno", 0):
                                 env[mname] = self.decorated_function(mfi, c)
+                        used = {x.id for x in ast.walk(val) if isinstance(x, ast.Name)}
+                        for aname, astmt in c.assigns.items():
+                            if aname in used and aname != name and \
+                                    getattr(astmt, "lineno", 0) < getattr(stmt, "lineno", 0):
+                                env[aname] = self.class_attr(c, aname, st, fr, site)
                         cfr = Frame(None, c.module, env, ())
                         v = self.eval(val, cfr, self.module_state(c.module))
                         if v.extra is None and v.op not in ("Const",):
@@ -714,6 +724,12 @@ class CoreMixin:
                             v.extra.setdefault("class_attr", (c.qualname, name))
                         self._classattr_memo[key] = v
                 cv = self._classattr_memo[key]
+                if inst is not None and cv.op == "Obj" and cv.extra and cv.extra.get("cls") is not None:
+                    getter = self.find_method(cv.extra["cls"], "__get__")
+                    if getter is not None:
+                        # descriptor protocol: type(cv).__get__(cv, instance, owner)
+                        return self.call(self.bind_method(cv, getter, getter.cls, site),
+                                         [inst, self.class_node(ci)], {}, st, fr, site)
                 if inst is not None and cv.op in ("Func", "Closure"):
                     # a function stored in the class body is a method: bound when reached through an instance
                     return self.mk("BoundMethod", (inst, cv), None, site)
@@ -736,6 +752,12 @@ class CoreMixin:
                 return v
         if obj.extra and name in obj.extra.get("record_fields", {}):
             return obj.extra["record_fields"][name]     # immutable record (named tuple): known wherever it was created
+        # an object created while a module (or a class body) was evaluated: its fields as that evaluation left them are
+        # the initial contents of every later state
+        for ms in self._mod_states.values():
+            v = ms.heap.get(key)
+            if v is not None and v.op != "Undefined" and ms is not st:
+                return v
         ci = obj.extra.get("cls") if obj.extra else None
         if ci is None:
             n = self.mk("State", (obj,), name, site)
